@@ -9,7 +9,8 @@ RULE = ("single gates of every type at fan-in 1..6 (limit_fanin) and nodes with 
         "k in 2..5; every circuit with <=2 inputs and <=2 gates; seeded random lint-clean circuits (acyclic "
         "and cyclic, constants, flops for the limit_* functions); insert_registers for num_stages 1..3 when "
         "a stage boundary exists; acyclic_unroll on acyclic blackbox-free circuits; non-trivial = the "
-        "transform changed the graph (or, for acyclic_unroll, the circuit has a gate)")
+        "transform changed the graph (or, for acyclic_unroll, the circuit has a gate)"
+        "; plus: names derived from the library's own naming templates, shuffled node insertion order; a transform exception is a failure")
 BOUND = "circuits <= 16 nodes, <= 10 free signals; k in 2..5; num_stages 1..3; 4/16 hash seeds"
 
 
